@@ -577,6 +577,17 @@ def make_program(geo: Dict[str, Any], cfg_seed: int, identity: bool = False) -> 
             if k in geo["curved"] and (k not in first_owner or rank[nme] < rank[first_owner[k]]):
                 first_owner[k] = nme
     only_first = {k for k in geo["curved"] if Stream(cfg_seed, "inherit", k).chance(0.35)}
+    # ... or, for half of those, by any one of its owners: a block added before that owner has its edge there too
+    owners: Dict[str, List[str]] = {}
+    for nme in names:
+        c = by_name[nme]["corners"]
+        for (u, v) in hexref.EDGES12:
+            key = tuple(sorted((c[u], c[v])))
+            owners.setdefault(key[0] + "|" + key[1], []).append(nme)
+    for k in sorted(only_first):
+        ir = Stream(cfg_seed, "inherit", k, "who")
+        if ir.chance(0.5):
+            first_owner[k] = ir.pick(sorted(set(owners[k])))
     for nme in names:
         b = by_name[nme]
         corners = hexref.renumber(b["corners"], rots[nme])
